@@ -4,6 +4,10 @@
   Model: HapModel/Sessions.lean (registry of connections, dispatch guards, handle_pairings with
   add / remove / list and the last-admin rule, teardown of unpaired sessions by
   `_process_response` after the response is written) on top of HapModel/PairVerify.lean.
+  Deepening round: delayed responses (`Req.resource` / `Op.ready`: `response.task`,
+  `_handle_response_ready`) and `Op.restart` are part of the alphabet; the cut theorem speaks about
+  every continuation (rest of the remover's segment, re-adding, completions of delayed responses,
+  restarts), and "useful answers go to paired controllers only" covers every request kind.
   `step C true` is the repaired code, `step C false` the code before the repair.
   All theorems hold for every value of the crypto parameters `C`.
 -/
